@@ -112,7 +112,14 @@ func (c11) Gen(seed uint64, tier string) *Scenario {
 					prefix += "\nCOMMIT;"
 				}
 			}
-			switch r.Intn(14) {
+			switch r.Intn(17) {
+			case 14:
+				// the run ends by EXIT (code 0) while tables are held for update and nothing is uncommitted
+				extra = fmt.Sprintf("SELECT COUNT(*) FROM %s FOR UPDATE;\n%s", tableName(r.Intn(ntab)), r.PickS("EXIT;", "EXIT 0;", "IF TRUE THEN EXIT; END IF;"))
+			case 15:
+				extra = fmt.Sprintf("UPDATE %s SET n = n + 1 WHERE id = 99999;\nDELETE FROM %s WHERE id = 99999;\n%s", tableName(r.Intn(ntab)), tableName(r.Intn(ntab)), r.PickS("EXIT;", "EXIT 0;", "WHILE TRUE DO EXIT; END WHILE;"))
+			case 16:
+				extra = fmt.Sprintf("COMMIT;\nALTER TABLE %s SET HEADER TO TRUE;\nSELECT id FROM %s FOR UPDATE;\nEXIT;", tableName(r.Intn(ntab)), tableName(r.Intn(ntab)))
 			case 12:
 				// a second handler for the same container key (names differing in case only)
 				tn := tableName(r.Intn(ntab))
@@ -361,6 +368,10 @@ func (c11) Eval(t *testing.T, c *Case, dec func(int) *Decider) *Outcome {
 			"load.prod.row", "load.cons.recv", "gm.run.row", "eval.seq.row", "tx.commit.truncate", "tx.commit.write", "tx.commit.swap", "h.commit.rename",
 			"cf.close.unlock", "cf.close.remove", "h.release.unlock", "h.released", "tx.commit.done", "h.create.file"}
 		spec := fmt.Sprintf("%s#%d:%s", pts[r.Intn(len(pts))], 1+r.Intn(3), r.PickS("INT", "TERM", "QUIT"))
+		if r.Bool(0.35) {
+			spec = "no.such.point#1:INT" // no signal: the natural end of the program through the real cli/app.go
+			o.Stats.probe("real-natural-end-run")
+		}
 		dir, code, stderr, err := realSignalRun(bin, sc, p, spec)
 		o.RealProc++
 		if err != nil {
